@@ -34,9 +34,21 @@ Eval(e) ==
             extra |-> Cardinality(got \ want),        \* below-count k-mers that entered (collisions)
             seen |-> Cardinality(all)]
 
+\* reads.stat: one LARGE sample (10^5 and more distinct k-mers, far beyond what ReadPairs can enumerate here): the driver
+\* counts, independently of the code, how many distinct full k-mers (strands merged) the reads hold (distinct), how many
+\* reach the count (reached), and classifies the entries of the built file: reached the count / seen below it / never
+\* seen.  The clauses are the property's own: none that reached the count is lost, nothing is fabricated, and the
+\* below-count entries (filter collisions) stay under 0.1 % of the distinct k-mers OF THIS SAMPLE.
+EvalStat(e) ==
+   [ok |-> /\ e.panic = ""
+           /\ e.kept_reached = e.ctx.reached
+           /\ e.kept_unseen = 0
+           /\ e.kept_below * 1000 < e.ctx.distinct,
+    extra |-> 0, seen |-> 0]
+
 Init == l = 1 /\ bad = {} /\ extras = 0 /\ seen = 0
 Next == /\ l <= Len(Rec)
-        /\ LET r == Eval(Rec[l]) IN
+        /\ LET r == IF Rec[l].ev = "reads.stat" THEN EvalStat(Rec[l]) ELSE Eval(Rec[l]) IN
            /\ bad' = IF r.ok THEN bad ELSE bad \cup {l}
            /\ extras' = extras + r.extra
            /\ seen' = seen + r.seen
